@@ -56,6 +56,12 @@ func (b *buffer) validTag() bool {
 
 // readTagValue discards until tag.ValueOffset and reads length of tag
 func (ir *ifdReader) readTagValue() (buf []byte, err error) {
+	if ir.parsingEmbedded {
+		// A value of at most 4 bytes (a cut-down date, a count of zero) sits in the value slot of its
+		// directory entry; the current tag of the buffer is another, pending tag or a stale slot.
+		ir.embedded.EmbeddedValue(ir.buffer.buf[:4])
+		return ir.buffer.buf[:ir.embedded.Size()], nil
+	}
 	t := ir.buffer.currentTag()
 	if err := ir.discard(int(t.ValueOffset) - int(ir.po)); err != nil {
 		return nil, err
